@@ -901,6 +901,15 @@ func (c *Conn) WriteFrame(messageType MessageType, sendOpcode, fin bool, data []
 		return net.ErrClosed
 	}
 
+	switch messageType {
+	case PingMessage, PongMessage, CloseMessage:
+		// as in WriteMessage: a control frame carries 125 bytes at most.
+		if len(data) > maxControlFramePayloadSize {
+			return ErrControlMessageTooBig
+		}
+	default:
+	}
+
 	return c.writeFrame(messageType, sendOpcode, fin, data, false)
 }
 
